@@ -79,14 +79,26 @@ Definition zlist_eqb' : list Z -> list Z -> bool :=
                 | _, _ => false
                 end.
 
-(* (tokens, [(depth, symbols, observations of the implementation)]) *)
-Definition chk_matcher (mode : eps_mode) (c : list token * list (nat * list sym * list Z)) : bool :=
+(* (tokens, [(depth, symbols, observations of the implementation,
+                 prediction of the harness' language oracle: is_complete + 2 * accepted,
+                 or [] where the oracle makes no statement)]) *)
+Definition case_t : Type := (list token * list (nat * list sym * list Z * list Z))%type.
+
+Definition low2 (c : Z) : Z := Z.land c 3.
+
+(* which = 0: implementation = model;  1: oracle = model;  2: both *)
+Definition chk_case (mode : eps_mode) (which : Z) (c : case_t) : bool :=
   match c with
   | (toks, plans) =>
     match parse_regex toks with
     | inr r =>
       let m := new_matcher mode r in
-      forallb (fun p => match p with (d, syms, codes) => zlist_eqb' codes (plan_codes m d syms) end) plans
+      forallb (fun p => match p with
+                        | (d, syms, codes, orc) =>
+                          let mine := plan_codes m d syms in
+                          (Z.eqb which 1 || zlist_eqb' codes mine)
+                          && (Z.eqb which 0 || match orc with [] => true | _ => zlist_eqb' orc (map low2 mine) end)
+                        end) plans
     | inl _ => false
     end
   end.
